@@ -90,6 +90,13 @@ def encode(node: ast.AST, env: Dict[str, z3.ArithRef], side: List) -> z3.ExprRef
             else:
                 raise Unsupported("cmp %s" % type(op).__name__)
         return conj[0] if len(conj) == 1 else z3.And(*conj)
+    if isinstance(node, ast.BoolOp):
+        # Python: `x or y` is x if x is truthy else y; `x and y` is y if x is truthy else x (values, not booleans)
+        vals = [_to_int(encode(v, env, side)) for v in node.values]
+        out = vals[-1]
+        for v in reversed(vals[:-1]):
+            out = z3.If(v != 0, v, out) if isinstance(node.op, ast.Or) else z3.If(v != 0, out, v)
+        return out
     if isinstance(node, ast.IfExp):
         c = _to_bool(encode(node.test, env, side))
         a = encode(node.body, env, side)
